@@ -623,6 +623,103 @@ theorem replaceRange_preserves (S : Schema) (doc doc' : Node) (f t : Nat) (sl : 
   respects_replace S doc doc' f t sl F T sl' b
     (replaceRange_respects S doc f t sl cs hft hwf h c hc _ hst (fun _ _ _ _ _ _ _ he => by cases he)) ha
 
+/-- a request moved over structure: a step that respects the insertion request at `p` also respects
+    the insertion request at `f` when everything between `p` and `f` is structural (for a
+    replace-around step: provided its kept gap does not start before `f`) -/
+theorem respects_of_moved (toks : List Tok) (f p : Nat) (req : Slice) (st : Step)
+    (hs : structuralOnly (between toks p f) = true)
+    (hg : ∀ F T G1 G2 sl ins b, st = .replaceAround F T G1 G2 sl ins b → f ≤ G1)
+    (hm : respects toks p p req st = true) : respects toks f f req st = true := by
+  rw [structuralOnly_between_iff] at hs
+  cases st with
+  | replace F T sl b =>
+    simp only [respects, Bool.and_eq_true, decide_eq_true_eq] at hm ⊢
+    obtain ⟨⟨⟨⟨⟨⟨hFT, hT⟩, _⟩, a1⟩, a2⟩, _⟩, hsub⟩ := hm
+    rw [structuralOnly_between_iff] at a1 a2
+    refine ⟨⟨⟨⟨⟨⟨hFT, hT⟩, Nat.le_refl _⟩, ?_⟩, ?_⟩, by omega⟩, hsub⟩
+    · rw [structuralOnly_between_iff]
+      intro i hi1 hi2 tk htk
+      by_cases c : min F p ≤ i ∧ i < max F p
+      · exact a1 i c.1 c.2 tk htk
+      · exact hs i (by omega) (by omega) tk htk
+    · rw [structuralOnly_between_iff]
+      intro i hi1 hi2 tk htk
+      by_cases c : min p T ≤ i ∧ i < max p T
+      · exact a2 i c.1 c.2 tk htk
+      · exact hs i (by omega) (by omega) tk htk
+  | replaceAround F T G1 G2 sl ins b =>
+    have hfG := hg _ _ _ _ _ _ _ rfl
+    simp only [respects, Bool.and_eq_true, decide_eq_true_eq] at hm ⊢
+    obtain ⟨⟨⟨⟨⟨⟨⟨⟨⟨⟨⟨hFG, hGG⟩, hGT⟩, hT⟩, _⟩, htG⟩, a1⟩, a2⟩, a3⟩, _⟩, hn⟩, hsub⟩ := hm
+    rw [structuralOnly_between_iff] at a1 a2
+    refine ⟨⟨⟨⟨⟨⟨⟨⟨⟨⟨⟨hFG, hGG⟩, hGT⟩, hT⟩, Nat.le_refl _⟩, hfG⟩, ?_⟩, ?_⟩, a3⟩, by omega⟩, hn⟩, hsub⟩
+    · rw [structuralOnly_between_iff]
+      intro i hi1 hi2 tk htk
+      by_cases c : min F p ≤ i ∧ i < max F p
+      · exact a1 i c.1 c.2 tk htk
+      · exact hs i (by omega) (by omega) tk htk
+    · rw [structuralOnly_between_iff]
+      intro i hi1 hi2 tk htk
+      by_cases c : min p G1 ≤ i ∧ i < max p G1
+      · exact a2 i c.1 c.2 tk htk
+      · exact hs i (by omega) (by omega) tk htk
+  | _ => simp [respects] at hm
+
+/-- **`replace_range_with` respects the original request**: `replace_range_with(f, t, node)` is
+    `replace_range` at the pair `replace_range_with` passes on — `(f, t)`, or the insertion point
+    `insert_point` answered, which differs from `f = t` by open tokens only or by close tokens only
+    (`insertPoint_structural`).  So every step `replace_step` emits for one of its requests
+    satisfies the C11 monitor for the request `(f, t, <node>)`: unconditionally for a replace step;
+    for a replace-around step with the residual hypothesis of `fitter_respects` and — only when the
+    target was moved — a kept gap that does not start before the requested position. -/
+theorem replaceRangeWith_respects (S : Schema) (doc : Node) (f t : Nat) (node : Node)
+    (cs : List (Nat × Nat × Slice)) (hft : f ≤ t)
+    (h : replaceRangeWithCalls S doc f t node = some cs)
+    (c : Nat × Nat × Slice) (hc : c ∈ cs) (st : Step)
+    (hst : replaceStep S doc c.1 c.2.1 c.2.2 = .ok (some st))
+    (htail : ∀ F T G1 G2 sl' ins b, st = .replaceAround F T G1 G2 sl' ins b →
+      noText ((sliceToks' sl').drop ins) = true)
+    (hgap : ∀ F T G1 G2 sl' ins b, st = .replaceAround F T G1 G2 sl' ins b → t ≤ G1) :
+    respects (ftoks doc.kids) f t ⟨[node], 0, 0⟩ st = true := by
+  have hwf : (Slice.mk [node] 0 0).wf = true := by simp [Slice.wf]
+  unfold replaceRangeWithCalls replaceRangeWithPlan at h
+  split at h
+  · simp at h
+  · rename_i a b htg
+    have hcs : replaceRangeCalls S doc a b ⟨[node], 0, 0⟩ = some cs := h
+    unfold replaceRangeWithTarget at htg
+    have same : a = f ∧ b = t → respects (ftoks doc.kids) f t ⟨[node], 0, 0⟩ st = true := by
+      rintro ⟨rfl, rfl⟩
+      exact replaceRange_respects S doc a b _ cs hft hwf hcs c hc st hst htail
+    split at htg
+    · rename_i hcond
+      simp only [Bool.and_eq_true, Bool.not_eq_true', beq_iff_eq] at hcond
+      split at htg
+      · simp at htg
+      · rename_i r hr
+        split at htg
+        · split at htg
+          · simp at htg
+          · rename_i p hp
+            simp only [Option.some.injEq, Prod.mk.injEq] at htg
+            obtain ⟨rfl, rfl⟩ := htg
+            obtain ⟨_, rfl⟩ := hcond
+            have hip : insertPoint S doc f (S.tyOf node) = some (some p) := by simp [insertPoint, hr, hp]
+            have hm := replaceRange_respects S doc p p _ cs (Nat.le_refl _) hwf hcs c hc st hst htail
+            refine respects_of_moved _ f p _ st ?_ hgap hm
+            rw [structuralOnly_between_iff]
+            intro i hi1 hi2 tk htk
+            rcases insertPoint_structural S doc f _ p hip with ⟨hle, ho⟩ | ⟨hle, _, hcl⟩
+            · obtain ⟨ty, at_, m, e⟩ := ho i (by omega) (by omega)
+              rw [e] at htk; cases htk; rfl
+            · rw [hcl i (by omega) (by omega)] at htk; cases htk; rfl
+          · simp only [Option.some.injEq, Prod.mk.injEq] at htg
+            exact same ⟨htg.1.symm, htg.2.symm⟩
+        · simp only [Option.some.injEq, Prod.mk.injEq] at htg
+          exact same ⟨htg.1.symm, htg.2.symm⟩
+    · simp only [Option.some.injEq, Prod.mk.injEq] at htg
+      exact same ⟨htg.1.symm, htg.2.symm⟩
+
 /-- the hypotheses are satisfiable and the kinds of widening are real: in
     `doc(bq(p("ab")), p("cd"))` (`doc`, `bq` content `(p | bq | h)+`; `h` defining),
     * `replace_range(2, 4, <h("x")>)` — the whole text of the inner paragraph replaced by a heading —
